@@ -228,6 +228,7 @@ type Inv struct {
 	gate     chan error // handler-body gate (conv_none, conv_error, raw_unbuffered)
 	ch       chan error // completion channel owned by the handler (raw_buffered, conv_chan, conv_rochan)
 	released bool
+	auto     bool // completes without a host decision, but only once the dispatching call has returned
 }
 
 type Host struct {
@@ -242,6 +243,12 @@ type Host struct {
 	readers []*faultReader
 	onCall  func(kind, name string) // preemption point (probe / handler entry)
 	loadErr error
+	// freeRunning: handlers that complete on their own goroutine really do so whenever the Go scheduler lets
+	// them (stress modes). Otherwise (the default) such a handler is held at its gate until the call that
+	// dispatched it has returned: whether a freshly started goroutine gets to run before the runner looks at
+	// its channel is a choice of the Go scheduler (preemption), and every choice the simulator does not make
+	// itself breaks replay.
+	freeRunning bool
 }
 
 func (h *Host) event(s string) {
@@ -510,8 +517,12 @@ func (h *Host) registerHandler(hs HandlerSpec) {
 			inv := h.newInv(hs.Name, rawArgs(args))
 			inv.gate = make(chan error, 1)
 			if inv.Sched.Immediate {
-				inv.released = true
-				inv.gate <- schedErr(inv.Sched)
+				if h.freeRunning {
+					inv.released = true
+					inv.gate <- schedErr(inv.Sched)
+				} else {
+					inv.auto = true
+				}
 			}
 			out := make(chan error)
 			done := h.done
@@ -562,9 +573,10 @@ func (h *Host) registerHandler(hs HandlerSpec) {
 			switch hs.Shape {
 			case "conv_none":
 				inv.gate = make(chan error, 1)
-				if inv.Sched.Immediate {
+				if inv.Sched.Immediate && h.freeRunning {
 					inv.released = true
 				} else {
+					inv.auto = inv.Sched.Immediate
 					select {
 					case <-inv.gate:
 					case <-h.done:
@@ -574,10 +586,11 @@ func (h *Host) registerHandler(hs HandlerSpec) {
 			case "conv_error":
 				inv.gate = make(chan error, 1)
 				var res error
-				if inv.Sched.Immediate {
+				if inv.Sched.Immediate && h.freeRunning {
 					inv.released = true
 					res = schedErr(inv.Sched)
 				} else {
+					inv.auto = inv.Sched.Immediate
 					select {
 					case res = <-inv.gate:
 					case <-h.done:
@@ -628,6 +641,23 @@ func (h *Host) Release(i int, failed bool) bool {
 		inv.gate <- res
 	}
 	return true
+}
+
+// releaseAuto completes the invocations that need no host decision; called by the executors after the
+// dispatching call has returned and the bubble has settled.
+func (h *Host) releaseAuto() bool {
+	h.mu.Lock()
+	var todo []*Inv
+	for _, inv := range h.invs {
+		if inv.auto && !inv.released {
+			todo = append(todo, inv)
+		}
+	}
+	h.mu.Unlock()
+	for _, inv := range todo {
+		h.Release(inv.Index, inv.Sched.Err)
+	}
+	return len(todo) > 0
 }
 
 // Close lets every handler goroutine finish.
